@@ -288,21 +288,30 @@ def proof_class(fam, hp):
 STATIONARY = {"rbf", "matern", "rq", "periodic", "cosine", "piecewise", "spectral_mixture", "scale_rbf", "hamming"}
 
 
+def _ls(hp, d):
+    """shared lengthscale, or (hp['ard']) one lengthscale per input dimension around hp['l']"""
+    import torch
+    if hp.get("ard"):
+        return torch.tensor([[hp["l"] * (1.0 + 0.25 * ((k * 7) % 5 - 2) / 2.0) for k in range(d)]])
+    return hp["l"]
+
+
 def build_kernel(fam, hp, d):
     import torch
     from gpytorch import kernels as K
+    ard = d if hp.get("ard") else None
     if fam == "rbf":
-        k = K.RBFKernel(); k.lengthscale = hp["l"]
+        k = K.RBFKernel(ard_num_dims=ard); k.lengthscale = _ls(hp, d)
     elif fam == "matern":
-        k = K.MaternKernel(nu=hp["nu"]); k.lengthscale = hp["l"]
+        k = K.MaternKernel(nu=hp["nu"], ard_num_dims=ard); k.lengthscale = _ls(hp, d)
     elif fam == "rq":
-        k = K.RQKernel(); k.lengthscale = hp["l"]; k.alpha = hp["alpha"]
+        k = K.RQKernel(ard_num_dims=ard); k.lengthscale = _ls(hp, d); k.alpha = hp["alpha"]
     elif fam == "periodic":
         k = K.PeriodicKernel(); k.lengthscale = hp["l"]; k.period_length = hp["p"]
     elif fam == "cosine":
         k = K.CosineKernel(); k.period_length = hp["p"]
     elif fam == "piecewise":
-        k = K.PiecewisePolynomialKernel(q=hp["q"]); k.lengthscale = hp["l"]
+        k = K.PiecewisePolynomialKernel(q=hp["q"], ard_num_dims=ard); k.lengthscale = _ls(hp, d)
     elif fam == "spectral_mixture":
         g = torch.Generator().manual_seed(hp["seed"])
         q = hp["q"]
@@ -422,12 +431,20 @@ def prep_input(fam, X, d):
     return X
 
 
-def gram(fam, hp, Xk, d):
+def gram(fam, hp, Xk, d, mode="plain"):
+    """mode: 'plain' k(X); 'clone' k(X, X.clone()) (equal values, different tensor); 'trace' under settings.trace_mode"""
     import torch
+    import gpytorch
     k = build_kernel(fam, hp, d)
     with torch.no_grad(), warnings.catch_warnings():
         warnings.simplefilter("ignore")
-        K = k(Xk).to_dense()
+        if mode == "clone":
+            K = k(Xk, Xk.clone()).to_dense()
+        elif mode == "trace":
+            with gpytorch.settings.trace_mode(True):
+                K = k(Xk).to_dense()
+        else:
+            K = k(Xk).to_dense()
         try:
             Kd = k(Xk, diag=True)
             Kd = Kd if torch.is_tensor(Kd) else Kd.to_dense()
@@ -496,15 +513,20 @@ def gram_cases(ctx, drv, tier):
                     if fam in ("hamming", "index") and gname in ("near_coincident", "tiny_scale", "far_offset", "dup_and_near"):
                         continue
                     Xk = prep_input(fam, X, d)
+                    mode = "plain"
+                    if fam not in ("index", "hamming"):
+                        u = rng.random()
+                        mode = "clone" if u < 0.12 else ("trace" if u < 0.2 and fam in ("rbf", "matern", "rq", "scale_rbf", "sum", "product") else "plain")
                     try:
-                        K, Kd, cls = gram(fam, hp, Xk, d)
+                        K, Kd, cls = gram(fam, hp, Xk, d, mode)
                     except Exception as e:
                         ctx.broke("correspondence", f"kernel-eval:{fam}", f"{fam} {hp} {gname} n={n} d={d}: {type(e).__name__}: {e}"[:500])
                         continue
                     symptoms, info = float_screen(K, Kd)
                     mx = K.abs().max().item()
                     off = (K - torch.diag(torch.diag(K))).abs().max().item()
-                    desc = f"gram {fam} {hp} {gname} n={n} d={d} rep={rep}"
+                    desc = f"gram {fam} {hp} {gname} n={n} d={d} rep={rep} mode={mode}"
+                    ctx.count("gram_mode_" + mode)
                     ctx.case(desc, nontrivial=off > 1e-12 * mx,
                              sample={"kind": "gram", "kernel": cls, "hp": hp, "geometry": gname, "n": n, "d": d,
                                      "rel_min_eig": info.get("rel_min_eig")})
@@ -518,7 +540,7 @@ def gram_cases(ctx, drv, tier):
                     w = worst.get(fam)
                     if w is None or info.get("rel_min_eig", 0) < w[0]:
                         worst[fam] = (info.get("rel_min_eig", 0), gname, str(hp))
-                    rec = {"fam": fam, "hp": hp, "geometry": gname, "n": n, "d": d, "cls": cls, "X": Xk, "K": K,
+                    rec = {"fam": fam, "hp": hp, "geometry": gname, "n": n, "d": d, "cls": cls, "X": Xk, "K": K, "mode": mode,
                            "symptoms": symptoms, "info": info, "desc": desc}
                     borderline = info.get("rel_min_eig", 0) < -EIG_TOL / 100
                     want = bool(symptoms) or borderline or (cert_sent < cert_budget and rng.random() < (0.25 if tier == "quick" else 0.5))
@@ -579,6 +601,111 @@ def gram_cases(ctx, drv, tier):
                          "psd_is_a_theorem_for": PROVED_FAMILIES, "psd_observed_only_for": OBSERVED_ONLY,
                          "domain_handling": DOMAIN, "tolerances": {"eig": EIG_TOL, "sym": SYM_TOL, "minor": MINOR_TOL,
                                                                   "diag": DIAG_TOL}}
+
+
+# ------------------------------------------------------------------------------------------------ dense point clouds
+
+def dense_grid(tier):
+    g = []
+    for l in (0.3, 1.0, 3.0):
+        for ard in (False, True):
+            g.append(("rbf", {"l": l, "ard": ard}))
+            g.append(("rq", {"l": l, "alpha": 1.0, "ard": ard}))
+            for nu in (0.5, 1.5, 2.5):
+                g.append(("matern", {"nu": nu, "l": l, "ard": ard}))
+            for q in (0, 1, 2, 3):
+                g.append(("piecewise", {"q": q, "l": l, "ard": ard}))
+        g.append(("periodic", {"l": l, "p": 1.0}))
+        g.append(("cylindrical", {"l": l, "base": "matern2.5"}))
+        g.append(("scale_rbf", {"s": 1.0, "l": l}))
+        g.append(("product", {"l": l}))
+        g.append(("sum", {"l": l}))
+    g.append(("spectral_mixture", {"q": 2, "s": 1.0, "seed": 7}))
+    g.append(("hamming", {"alpha": 1.0, "beta": 1.0}))
+    return g
+
+
+def dense_geometries(n, d, rng):
+    import torch
+    g = torch.Generator().manual_seed(rng.torch_seed())
+    out = {"unit_cube": torch.rand(n, d, generator=g)}
+    m = max(2, int(round(n ** (1.0 / d))))
+    axes = [torch.linspace(0, 1, m) for _ in range(d)]
+    lat = torch.cartesian_prod(*axes) if d > 1 else axes[0].unsqueeze(-1)
+    out["lattice"] = lat[:n].clone().reshape(-1, d)
+    out["gaussian_cloud"] = torch.randn(n, d, generator=g) * 0.5
+    return out
+
+
+def exact_witness_from_eig(K, norm):
+    """float eigenvector of the smallest eigenvalue -> small rationals -> exact v^T K v, v^T (K + delta I) v"""
+    import torch
+    S = (K + K.transpose(-1, -2)) / 2
+    ev, V = torch.linalg.eigh(S)
+    v = V[:, 0]
+    v = v / v.abs().max()
+    vq = [Fraction(int(round(x * 2 ** 20)), 2 ** 20) for x in v.tolist()]
+    rows = sym_rows(rat_rows(K))
+    delta = fr(EIG_TOL * norm)
+    q0 = quad(rows, vq)
+    qd = q0 + delta * sum(x * x for x in vq)
+    return rows, delta, vq, q0, qd
+
+
+def dense_cases(ctx, drv, tier):
+    torch = _torch()
+    rng = ctx.rng("dense")
+    sizes = [(60, 2), (90, 3), (110, 5)] if tier == "quick" else [(60, 2), (120, 2), (150, 3), (220, 3), (250, 5), (120, 1)]
+    grid = dense_grid(tier)
+    nfam = {}
+    for (n, d) in sizes:
+        G = dense_geometries(n, d, rng)
+        for fam, hp in grid:
+            if fam in ("periodic",) and d > 3:
+                continue
+            for gname, X in G.items():
+                if fam == "hamming" and gname != "unit_cube":
+                    continue
+                Xk = prep_input(fam, X, d)
+                try:
+                    K, Kd, cls = gram(fam, hp, Xk, d)
+                except Exception as e:
+                    ctx.broke("correspondence", f"kernel-eval:{fam}", f"dense {fam} {hp} {gname} n={n} d={d}: {type(e).__name__}: {e}"[:500])
+                    continue
+                symptoms, info = float_screen(K, Kd)
+                desc = f"dense {fam} {hp} {gname} n={X.shape[0]} d={d}"
+                ctx.case(desc, sample={"kind": "gram-dense", "kernel": cls, "hp": hp, "geometry": gname, "n": X.shape[0], "d": d,
+                                       "rel_min_eig": info.get("rel_min_eig")})
+                nfam[fam] = nfam.get(fam, 0) + 1
+                pc = "theorem" if proof_class(fam, hp) == "theorem" else "observed_only"
+                ctx.count("gram_cells_family_" + pc)
+                if not symptoms:
+                    continue
+                rec = {"fam": fam, "hp": hp, "geometry": "dense-" + gname, "n": X.shape[0], "d": d, "cls": cls, "X": Xk, "K": K,
+                       "mode": "plain", "symptoms": symptoms, "info": info, "desc": desc}
+                neg = None
+                if any(x == "indefinite" for x, _ in symptoms) and math.isfinite(info.get("norm", float("nan"))):
+                    rows, delta, vq, q0, qd = exact_witness_from_eig(K, info["norm"])
+                    rec["rows"], rec["delta"] = rows, delta
+                    if qd < 0:
+                        neg = ("neg", qd, vq)
+                        if drv is not None and X.shape[0] <= 160:
+                            def cb(rep, q0=q0, qd=qd, desc=desc):
+                                t = rep.split()
+                                ctx.count("dense_witness_checked_by_driver")
+                                if len(t) != 2 or Fraction(t[0]) != q0 or Fraction(t[1]) != qd:
+                                    ctx.broke("correspondence", "witness-recheck", f"{desc}: driver {rep[:120]} vs python {q0} {qd}")
+                            drv.ask(f"quad {C.rat_str(delta)} {rows_tokens(rows)} {len(vq)} 1 " + " ".join(C.rat_str(x) for x in vq), cb)
+                    else:
+                        # the float eigen-solver's verdict is not confirmed exactly: report, never hide
+                        ctx.count("dense_float_indefinite_not_confirmed")
+                        rec["symptoms"] = [x for x in symptoms if x[0] != "indefinite"]
+                if rec["symptoms"]:
+                    report_gram(ctx, rec, neg)
+    ctx.notes["dense_clouds"] = {"per_family": nfam, "sizes": sizes,
+                                 "rule": "n points uniform in the unit cube / on a lattice / Gaussian cloud, lengthscale 0.3, 1, 3; "
+                                         "shared and ARD lengthscales; verdict by eigvalsh, a negative one is confirmed by an exact "
+                                         "rational witness (rationalised eigenvector, v^T(K+delta I)v < 0 in exact arithmetic)"}
 
 
 ENV_C = 64.0            # constant of the a-priori rounding envelope of the quadratic expansion
@@ -666,7 +793,7 @@ def attribute_sq_dist(rec, magnitude):
     fam, hp, d = rec["fam"], rec["hp"], rec["d"]
 
     def still():
-        K2, Kd2, _ = gram(fam, hp, rec["X"], d)
+        K2, Kd2, _ = gram(fam, hp, rec["X"], d, rec.get("mode", "plain"))
         s2, _ = float_screen(K2, Kd2)
         return any(x in SOFT for x, _ in s2)
     return guarded_attribution(still, magnitude)
@@ -676,17 +803,19 @@ def report_gram(ctx, rec, neg):
     """Turn the symptoms of one Gram matrix into ctx.fail entries (with guarded root-cause attribution)."""
     fam, hp, d = rec["fam"], rec["hp"], rec["d"]
     info = rec["info"]
-    replay = {"kind": "gram", "family": fam, "hp": hp, "d": d, "geometry": rec["geometry"],
+    replay = {"kind": "gram", "family": fam, "hp": hp, "d": d, "geometry": rec["geometry"], "mode": rec.get("mode", "plain"),
               "kernel_input": [[C.rat_str(v) for v in row] for row in rec["X"].tolist()],
-              "K_float64_exact": [[C.rat_str(fr(v)) for v in row] for row in rec["K"].tolist()],
               "rel_min_eig_float": info.get("rel_min_eig"), "norm": info.get("norm")}
+    if rec["K"].shape[-1] <= 16:
+        replay["K_float64_exact"] = [[C.rat_str(fr(v)) for v in row] for row in rec["K"].tolist()]
     if neg is not None:
         replay["delta"] = C.rat_str(rec["delta"])
         replay["witness_v"] = [C.rat_str(x) for x in neg[2]]
         replay["vT_(K+delta I)_v"] = C.rat_str(neg[1])
         replay["vT_K_v"] = C.rat_str(quad(rec["rows"], neg[2]))
     for s, detail in rec["symptoms"]:
-        what = f"{rec['cls']} {hp} on `{rec['geometry']}` (n={rec['n']}, d={d}): {detail}"
+        what = f"{rec['cls']} {hp} on `{rec['geometry']}` (n={rec['n']}, d={d}" + \
+               (f", evaluation mode {rec['mode']}" if rec.get("mode", "plain") != "plain" else "") + f"): {detail}"
         key = f"gram-{s}:{rec['cls']}"
         if s in ("indefinite", "asymmetric", "negative-diagonal"):
             mag = info.get("asym_rel", 0.0) if s == "asymmetric" else abs(min(info.get("rel_min_eig", 0.0), 0.0))
@@ -710,7 +839,7 @@ def recheck_gram(case):
     X = torch.tensor([[float(Fraction(v)) for v in row] for row in case["kernel_input"]])
     if case["family"] == "index":
         X = X.long()
-    K, Kd, _ = gram(case["family"], case["hp"], X, case["d"])
+    K, Kd, _ = gram(case["family"], case["hp"], X, case["d"], case.get("mode", "plain"))
     s, _ = float_screen(K, Kd)
     return not s
 
@@ -822,6 +951,20 @@ def run_exact_gp(ctx, drv, p, want_driver=True):
         noise = lik.noise.item()
     scale = max(torch.linalg.eigvalsh((prior + prior.T) / 2).abs().max().item(), 1e-300)
     tag = f"{p['kernel']}/{p['flavour']}"
+    # the rarely used branch of exact_prediction: joint kernel kept lazy (size above max_eager_kernel_size)
+    model_l, lik_l = _exact_model(p["kernel"], p["hp"], tx, ty, p["noise"])
+    with torch.no_grad(), warnings.catch_warnings(), gpytorch.settings.max_eager_kernel_size(1):
+        warnings.simplefilter("ignore")
+        post_lazy = model_l(sx).covariance_matrix.clone()
+    sm, info = cov_screen(post_lazy, scale)
+    for sym, detail in sm:
+        mag = info.get("asym_rel", 0.0) if sym == "asymmetric" else max(abs(min(info.get("rel_min_eig", 0.0), 0.0)), EIG_TOL)
+        fails.append((f"exactgp-posterior(lazy joint)-{sym}:{p['kernel']}", f"exact GP {tag} n={n} m={m} max_eager_kernel_size(1): posterior covariance {detail}",
+                      sym, mag, f"ExactGP({p['kernel']})/posterior-lazy"))
+    dl = (post_lazy - post).abs().max().item()
+    if dl > 1e-7 * scale and p["flavour"] != "near_test":   # (near_test: the two branches evaluate k(x*,x*) through different distance paths)
+        fails.append((f"exactgp-lazy-vs-eager:{p['kernel']}", f"exact GP {tag}: posterior covariance with a lazily evaluated joint kernel "
+                      f"(max_eager_kernel_size(1)) differs from the eager one by {dl:.3e} (scale {scale:.3e})"))
     for name, Mx in (("prior", prior), ("posterior", post), ("marginal", marg), ("prior-minus-posterior", prior - post)):
         s, info = cov_screen(Mx, scale)
         for sym, detail in s:
@@ -1084,7 +1227,7 @@ def nan_policy_cases(ctx, drv, tier):
 
 HIST_KINDS = ["exact", "exact_fast_pred_var", "model_list", "model_list_fast_pred_var", "wrapper_exact", "wrapper_exact_fast_pred_var",
               "svgp_whitened", "svgp_unwhitened", "wrapper_svgp"]
-HIST_OPS = ["load_state_dict", "set_train_data", "train_step_eval"]
+HIST_OPS = ["load_state_dict", "set_train_data", "train_step_eval", "load_state_dict_partial", "set_train_targets"]
 
 
 def history_payload(rng, kind):
@@ -1098,7 +1241,7 @@ def history_payload(rng, kind):
         return {"s": rng.choice([0.2, 1.0, 5.0, 25.0]), "l": rng.choice([0.3, 1.0, 3.0]), "mean": 0.0}
     ops = [rng.choice(HIST_OPS) for _ in range(rng.choice([1, 2, 3]))]
     if not kind.startswith(("exact", "model_list", "wrapper_exact")):
-        ops = [o if o != "set_train_data" else "load_state_dict" for o in ops]
+        ops = [o if o not in ("set_train_data", "set_train_targets") else "load_state_dict" for o in ops]
     p = {"kind": "history", "model": kind, "ops": ops, "d": d,
          "train_x": torch.randn(n, d, generator=g).tolist(), "train_y": torch.randn(n, generator=g).tolist(),
          "train_x2": torch.randn(n + 1, d, generator=g).tolist(), "train_y2": torch.randn(n + 1, generator=g).tolist(),
@@ -1256,6 +1399,21 @@ def run_history(ctx, drv, p, want_driver=True):
         if op == "load_state_dict":
             twin, _ = _hist_build(p, k)
             top.load_state_dict(twin.state_dict())
+        elif op == "load_state_dict_partial":
+            # only the kernel hyperparameters of a twin, strict=False, into the already-used model
+            twin, _ = _hist_build(p, k)
+            # (for SVGP the strategy's own buffers are kept in the dict: with none of its keys present the pre-hook
+            #  `_ensure_updated_strategy_flag_set` of VariationalStrategy raises IndexError on an empty child dict —
+            #  a robustness observation outside C07, noted in docs/C07.md)
+            sd = {kk: vv for kk, vv in twin.state_dict().items()
+                  if "covar_module" in kk or ("variational_strategy." in kk and "_variational_distribution" not in kk)}
+            top.load_state_dict(sd, strict=False)
+        elif op == "set_train_targets":
+            for i, leaf in enumerate(leaves):
+                ny = torch.tensor(p["train_y"]).flip(0).clone() * 1.5 + 0.3
+                if cur_tx[i].shape[0] != ny.shape[0]:
+                    ny = torch.tensor(p["train_y2"]).flip(0).clone() * 1.5 + 0.3
+                leaf["model"].set_train_data(targets=ny, strict=False)
         elif op == "set_train_data":
             for i, leaf in enumerate(leaves):
                 nx, ny = torch.tensor(p["train_x2"]), torch.tensor(p["train_y2"])
@@ -1305,6 +1463,177 @@ def history_cases(ctx, drv, tier):
                      sample={"kind": "history", "model": kind, "ops": p["ops"]})
             report_model_fails(ctx, fails, p, lambda p=p: bool(run_history(None, None, p, want_driver=False)))
     ctx.notes["history_ops"] = dist
+
+
+# ------------------------------------------------------------------------------------------------ fixed-noise fantasies
+
+def fantasy_payload(rng, floor):
+    import torch
+    g = torch.Generator().manual_seed(rng.torch_seed())
+    n = rng.choice([3, 4, 5])
+    m = rng.choice([2, 3])
+    d = rng.choice([1, 2])
+    b = floor if floor is not None else 1e-6
+    fpv = rng.random() < 0.4
+    # negative raw fantasy noise only without fast_pred_var: with it the fantasy strategy updates its caches from the raw
+    # (unfloored) call-time noise and a second round can raise NotPSDError on the unchanged tree (observation, see docs)
+    pool = [0.0, b / 10, b, b * (1 - 2 ** -52), b * 3, 0.05, 0.3] + ([] if fpv else [-0.1 * b])
+    rounds = []
+    for _ in range(rng.choice([1, 1, 2])):
+        k = rng.choice([1, 2, 3])
+        rounds.append({"x": torch.randn(k, d, generator=g).tolist(), "y": torch.randn(k, generator=g).tolist(),
+                       "noise": [rng.choice(pool) for _ in range(k)]})
+    if not any(v < b for r in rounds for v in r["noise"]):
+        rounds[0]["noise"][0] = rng.choice([0.0, b / 10])
+    return {"kind": "fantasy", "floor": floor, "kernel": rng.choice(["scale_rbf", "scale_matern1.5"]),
+            "hp": {"s": rng.choice([1.0, 4.0]), "l": rng.choice([0.5, 1.0]), "mean": 0.0},
+            "train_x": torch.randn(n, d, generator=g).tolist(), "train_y": torch.randn(n, generator=g).tolist(),
+            "train_noise": [rng.choice([b / 10, 0.05, 0.2, 0.0]) for _ in range(n)],
+            "test_x": torch.randn(m, d, generator=g).tolist(), "learn_additional_noise": rng.random() < 0.3,
+            "fast_pred_var": fpv, "rounds": rounds}
+
+
+def run_fantasy(ctx, drv, p, want_driver=True):
+    """ExactGP + FixedNoiseGaussianLikelihood -> eval -> predict -> get_fantasy_model(x_f, y_f, noise=nu)  (1-2 rounds).
+    After every round: the stored noise of the (fantasy) likelihood is >= settings.min_fixed_noise and equals the
+    regenerated clamp of cat([old stored, nu]); the noise it adds to the training covariance is >= the floor; the
+    posterior is symmetric PSD, prior - posterior PSD, and equals the exact Schur complement with the FLOORED noise."""
+    import contextlib
+    import torch
+    import gpytorch
+    fails = []
+    floor_cm = gpytorch.settings.min_fixed_noise(double_value=p["floor"]) if p["floor"] is not None else contextlib.nullcontext()
+    with floor_cm, warnings.catch_warnings():
+        warnings.simplefilter("ignore")
+        b = gpytorch.settings.min_fixed_noise.value(torch.double)
+        tx, ty, sx = torch.tensor(p["train_x"]), torch.tensor(p["train_y"]), torch.tensor(p["test_x"])
+        lik = gpytorch.likelihoods.FixedNoiseGaussianLikelihood(noise=torch.tensor(p["train_noise"]),
+                                                                learn_additional_noise=p["learn_additional_noise"])
+        base, _ = _exact_model(p["kernel"], p["hp"], tx, ty, 0.5)
+
+        class M(gpytorch.models.ExactGP):
+            def __init__(self):
+                super().__init__(tx, ty, lik)
+                self.mean_module, self.covar_module = base.mean_module, base.covar_module
+
+            def forward(self, x):
+                return gpytorch.distributions.MultivariateNormal(self.mean_module(x), self.covar_module(x))
+        model = M().eval()
+        lik.eval()
+        expect = [max(v, b) for v in p["train_noise"]]      # documented meaning; the exact model value comes from the driver
+        cur_x = tx
+
+        def check(mod, stage, raw_chain):
+            out = []
+            tag = f"FixedNoise fantasy history floor={b!r} learn_additional_noise={p['learn_additional_noise']} fast_pred_var={p['fast_pred_var']} {stage}"
+            stored = mod.likelihood.noise_covar.noise.detach().reshape(-1)   # (likelihood.noise would add the learned second noise)
+            n_all = stored.shape[0]
+            if (stored < b).any():
+                out.append(("fantasy-noise-below-min:FixedNoiseGaussianLikelihood",
+                            f"{tag}: likelihood.noise = {stored.tolist()} has entries below settings.min_fixed_noise = {b!r}"))
+            added = mod.likelihood.noise_covar(shape=torch.Size([n_all])).diagonal(dim1=-1, dim2=-2).detach().reshape(-1)
+            if (added < b).any():
+                out.append(("fantasy-added-noise-below-min:FixedNoiseGaussianLikelihood",
+                            f"{tag}: the noise covariance added to the {n_all} training points has diagonal {added.tolist()} < {b!r}"))
+            if want_driver and drv is not None:
+                def cb(rep, stored=stored.tolist(), raw_chain=list(raw_chain)):
+                    vals, _ = C.parse_mat(rep.split())
+                    want = [x[0] for x in vals]
+                    ctx.count("fixed_noise_compared")
+                    if [fr(x) for x in stored] != want:
+                        ctx.fail("fantasy-noise-vs-model:FixedNoiseGaussianLikelihood",
+                                 f"{tag}: stored noise {stored} but the regenerated FixedGaussianNoise clamp of {raw_chain} with "
+                                 f"floor {b!r} gives {[float(w) for w in want]}", p)
+                drv.ask(f"fix {C.rat_str(fr(b))} {len(raw_chain)} 1 " + " ".join(C.rat_str(fr(x)) for x in raw_chain), cb)
+            # posterior validity and exact reference with the floored noise
+            with torch.no_grad(), gpytorch.settings.fast_pred_var(p["fast_pred_var"]):
+                post_d = mod(sx)
+                post = post_d.covariance_matrix.clone()
+                var, sd = post_d.variance.clone(), post_d.stddev.clone()
+                with gpytorch.settings.lazily_evaluate_kernels(False):
+                    Ktt = to_dense_(mod.covar_module(cur_x))
+                    Krect = to_dense_(mod.covar_module(sx, torch.cat([cur_x, sx], 0)))
+            nn = cur_x.shape[0]
+            prior = (Krect[:, nn:] + Krect[:, nn:].T) / 2
+            scale = max(torch.linalg.eigvalsh(prior).abs().max().item(), 1e-300)
+            extra0 = mod.likelihood.second_noise.item() if p["learn_additional_noise"] else 0.0
+            A0 = Ktt + torch.diag(added) + extra0 * torch.eye(nn)
+            ev0 = torch.linalg.eigvalsh((A0 + A0.T) / 2)
+            if ev0[0].item() <= 0 or ev0[-1].item() / ev0[0].item() > 1e6:
+                ctx and ctx.count("fantasy_discarded_ill_conditioned")   # (noise 0 with floor 0: rounding ~ eps*cond)
+                return out
+            for name, Mx in (("posterior", post), ("prior-minus-posterior", prior - post)):
+                sm, info = cov_screen(Mx, scale)
+                for sym, detail in sm:
+                    mag = info.get("asym_rel", 0.0) if sym == "asymmetric" else max(abs(min(info.get("rel_min_eig", 0.0), 0.0)), EIG_TOL)
+                    out.append((f"fantasy-{name}-{sym}", f"{tag}: {name} covariance {detail}", sym, mag, f"FixedNoiseFantasy/{name}"))
+            if (var < gpytorch.settings.min_variance.value(torch.double)).any() or torch.isnan(sd).any():
+                out.append(("fantasy-variance-below-min", f"{tag}: variance {var.tolist()}"))
+            if want_driver and drv is not None:
+                extra = mod.likelihood.second_noise.item() if p["learn_additional_noise"] else 0.0
+                floored = torch.tensor([max(v, b) for v in raw_chain]) + extra
+                A = Ktt + torch.diag(floored)
+                B = Krect[:, :nn].transpose(-1, -2).contiguous()
+                D = Krect[:, nn:]
+                lam = floored.min().item()
+                kappa = torch.linalg.eigvalsh((A + A.T) / 2).abs().max().item() / max(lam, 1e-300)
+                if kappa > 1e8:
+                    ctx.count("fantasy_discarded_ill_conditioned")
+                else:
+                    tol = 1e3 * nn * kappa * 2.0 ** -52 * scale + 1e-12
+                    fpv = p["fast_pred_var"]
+
+                    def cb2(rep, post=post, tol=tol, fpv=fpv, scale=scale):
+                        if rep in ("singular", "bad"):
+                            return
+                        rows, _ = C.parse_mat(rep.split())
+                        ex = torch.tensor([[float(v) for v in r] for r in rows])
+                        diff = (ex - post).abs().max().item()
+                        if fpv:
+                            # OBSERVATION, not judged here (C04's subject): with fast_pred_var the fantasy strategy updates its
+                            # covariance cache from `fant_likelihood(mvn, inputs, noise=<raw fantasy noise>)`, i.e. with the
+                            # UNFLOORED call-time noise, while the fantasy likelihood stores the floored noise
+                            _state["fantasy_fpv_max_rel"] = max(_state.get("fantasy_fpv_max_rel", 0.0), diff / scale)
+                            ctx.count("fantasy_fpv_observed")
+                            return
+                        ctx.count("schur_compared")
+                        if diff > tol:
+                            ctx.fail("fantasy-posterior-vs-schur:FixedNoiseGaussianLikelihood",
+                                     f"{tag}: posterior covariance differs from the exact Schur complement with the FLOORED fixed "
+                                     f"noise max(noise, {b!r}) by {diff:.3e} (tol {tol:.1e})", p)
+                    drv.ask(f"schur {rows_tokens(rat_rows(A))} {rows_tokens(rat_rows(B))} {rows_tokens(rat_rows(D))}", cb2)
+            return out
+        # NOTE the chain of *raw* noises: FixedGaussianNoise floors at construction, so flooring the concatenation of
+        # (already floored) old noise and new noise equals flooring every raw value once
+        chain = list(p["train_noise"])
+        fails += check(model, "before fantasies", chain)
+        cur = model
+        for r, rd in enumerate(p["rounds"], 1):
+            xf, yf, nf = torch.tensor(rd["x"]), torch.tensor(rd["y"]), torch.tensor(rd["noise"])
+            with torch.no_grad(), gpytorch.settings.fast_pred_var(p["fast_pred_var"]):
+                cur(sx)     # get_fantasy_model needs a prediction strategy
+                cur = cur.get_fantasy_model(xf, yf, noise=nf)
+            cur_x = torch.cat([cur_x, xf], 0)
+            chain = chain + list(rd["noise"])
+            fails += check(cur, f"after fantasy round {r} with noise={rd['noise']}", chain)
+    return fails
+
+
+def fantasy_cases(ctx, drv, tier):
+    rng = ctx.rng("fantasy")
+    reps = 4 if tier == "quick" else 40
+    for floor in (None, 1e-2, 1e-9, 0.0):
+        for _ in range(reps):
+            p = fantasy_payload(rng, floor)
+            try:
+                fails = run_fantasy(ctx, drv, p)
+            except Exception as e:
+                ctx.broke("correspondence", "fantasy", f"{type(e).__name__}: {e}"[:600])
+                continue
+            ctx.case(f"fantasy floor={floor} {p['kernel']} rounds={[r['noise'] for r in p['rounds']]} lan={p['learn_additional_noise']} "
+                     f"fpv={p['fast_pred_var']} x0={p['train_x'][0]}",
+                     sample={"kind": "fantasy", "floor": floor, "rounds": [r["noise"] for r in p["rounds"]]})
+            report_model_fails(ctx, fails, p, lambda p=p: bool(run_fantasy(None, None, p, want_driver=False)))
 
 
 # ------------------------------------------------------------------------------------------------ variational grid
@@ -1485,6 +1814,11 @@ def run_variance(ctx, drv, diag, setting, container, want_driver=True):
             dist = gpytorch.distributions.MultivariateNormal(torch.zeros(n), torch.diag(dvec))
         elif container == "batch":
             dist = gpytorch.distributions.MultivariateNormal(torch.zeros(2, n), DiagLinearOperator(torch.stack([dvec, dvec.flip(0)])))
+        elif container in ("root_wide", "root_tall"):
+            from linear_operator.operators import RootLinearOperator
+            r = dvec.abs().sqrt()
+            R = torch.cat([torch.diag(r), torch.zeros(n, 2)], -1) if container == "root_wide" else r.unsqueeze(-1)
+            dist = gpytorch.distributions.MultivariateNormal(torch.zeros(n), RootLinearOperator(R))
         else:
             dist = gpytorch.distributions.MultitaskMultivariateNormal(torch.zeros(n, 2), DiagLinearOperator(torch.cat([dvec, dvec.flip(0)])))
         with warnings.catch_warnings():
@@ -1500,7 +1834,7 @@ def run_variance(ctx, drv, diag, setting, container, want_driver=True):
     if (var < b).any() or torch.isnan(var).any():
         fails.append((f"variance-below-min:{container}", f"MultivariateNormal({container}) with covariance diagonal {diag}: "
                       f"variance {var.flatten().tolist()} < settings.min_variance = {b}"))
-    if torch.isnan(sd).any() or (sd <= 0).any() or not torch.allclose(sd, var.sqrt(), rtol=1e-15, atol=0):
+    if torch.isnan(sd).any() or (sd < 0).any() or (b > 0 and (sd <= 0).any()) or not torch.allclose(sd, var.sqrt(), rtol=1e-15, atol=0):
         fails.append((f"stddev-not-real:{container}", f"MultivariateNormal({container}) with covariance diagonal {diag}: "
                       f"stddev {sd.flatten().tolist()} (variance {var.flatten().tolist()})"))
     if want_driver and drv is not None and container in ("diag", "dense_lazy", "batch"):
@@ -1526,8 +1860,8 @@ def variance_cases(ctx, drv, tier):
         n = rng.choice([1, 2, 3, 5])
         diags.append([rng.choice([-1e-12, 0.0, 1e-30, 1e-10, rng.random() * 1e-9, rng.random(), -rng.random() * 1e-14]) for _ in range(n)])
     for diag in diags:
-        for setting in (None, 1e-6, 1e-3, 0.5):
-            for container in ("diag", "dense_lazy", "batch", "multitask", "dense"):
+        for setting in (None, 1e-6, 1e-3, 0.5, 0.0):
+            for container in ("diag", "dense_lazy", "batch", "multitask", "dense", "root_wide", "root_tall"):
                 if container == "dense" and min(diag) <= 0:
                     continue  # a non-lazy tensor covariance must be PD for torch's own Cholesky: not constructible
                 try:
@@ -1538,8 +1872,30 @@ def variance_cases(ctx, drv, tier):
                 ctx.case(f"variance {diag} {setting} {container}", sample=p)
                 for key, what in fails:
                     ctx.fail(key, what, p)
-    # a posterior whose variance rounds below the floor: test point on a training point, tiny noise
+    # one distribution object, queried under a sequence of settings: the floor in force at the time of the query applies
     import torch
+    import gpytorch
+    from linear_operator.operators import DiagLinearOperator
+    dist = gpytorch.distributions.MultivariateNormal(torch.zeros(3), DiagLinearOperator(torch.tensor([-1e-12, 1e-8, 1.0])))
+    seq = [None, 1e-3, None, 0.0, 1e-6, None]
+    for k, setting in enumerate(seq):
+        with warnings.catch_warnings():
+            warnings.simplefilter("ignore")
+            if setting is None:
+                b = gpytorch.settings.min_variance.value(torch.double)
+                var = dist.variance
+            else:
+                with gpytorch.settings.min_variance(double_value=setting):
+                    b = gpytorch.settings.min_variance.value(torch.double)
+                    var = dist.variance
+        want = torch.tensor([-1e-12, 1e-8, 1.0]).clamp_min(b)
+        ctx.case(f"variance re-used distribution step {k} setting {setting}", sample={"kind": "variance-reuse", "sequence": seq, "step": k})
+        if not torch.equal(var, want):
+            ctx.fail("variance-reused-distribution", f"one MultivariateNormal queried under min_variance settings {seq}: at step {k} "
+                     f"(floor {b!r}) variance is {var.tolist()}, expected {want.tolist()}",
+                     {"kind": "variance", "diag": [C.rat_str(fr(v)) for v in (-1e-12, 1e-8, 1.0)], "min_variance_double": setting,
+                      "container": "diag"})
+    # a posterior whose variance rounds below the floor: test point on a training point, tiny noise
     for s in (1.0, 1e-12):
         p = {"kind": "exact_gp", "kernel": "scale_rbf", "hp": {"s": s, "l": 1.0, "mean": 0.0}, "noise": 1e-3,
              "flavour": "variance_floor", "train_x": [[0.0], [0.5], [1.0]], "train_y": [0.1, 0.2, 0.3],
@@ -1675,7 +2031,7 @@ def run_fixed_noise(ctx, drv, want_driver=True):
     import torch
     import gpytorch
     vecs = [[0.0, 1e-12, 1e-7, 1e-6, 9.999999999999999e-07, 1e-5, 1.0, -1.0], [1e-6], [0.5, 0.25], [0.0], [2e-4, 5e-4, 1e-3]]
-    for setting in (None, 1e-3, 1e-9):
+    for setting in (None, 1e-3, 1e-9, 0.0):
         for vec in vecs:
             v = torch.tensor(vec)
             cm = gpytorch.settings.min_fixed_noise(double_value=setting) if setting is not None else None
@@ -1755,12 +2111,15 @@ def correspondence(ctx, want_driver=True):
     section("variational_py", lambda: variational_cases(ctx, drv, ctx.tier))
     section("nan_policy_py", lambda: nan_policy_cases(ctx, drv, ctx.tier))
     section("history_py", lambda: history_cases(ctx, drv, ctx.tier))
+    section("fantasy_py", lambda: fantasy_cases(ctx, drv, ctx.tier))
+    section("dense_py", lambda: dense_cases(ctx, drv, ctx.tier))
     section("gram", lambda: gram_cases(ctx, drv, ctx.tier))
     drv.flush()
     drv.flush()
     tm["all"] = round(T(), 1)
     ctx.notes["section_seconds_cumulative"] = tm
     ctx.notes["schur_max_diff_over_tol"] = _state.get("schur_max_diff_over_tol")
+    ctx.notes["fantasy_fast_pred_var_cache_vs_floored_closed_form_max_rel_diff (observation)"] = _state.get("fantasy_fpv_max_rel")
     if "hetero_error" in _state:
         ctx.notes["hetero_error"] = _state["hetero_error"]
     # run.py starts `search` only when no failure at all was recorded; known-finding hits are failures too, so the
@@ -1826,6 +2185,8 @@ def replay(ctx, payload):
         return recheck_gram(case)
     if kind == "exact_gp":
         return not run_exact_gp(ctx, None, case, want_driver=False)
+    if kind == "fantasy":
+        return not run_fantasy(ctx, None, case, want_driver=False)
     if kind == "nan_policy":
         return not run_nan_policy(ctx, None, case, want_driver=False)
     if kind == "history":
